@@ -108,6 +108,22 @@ def structural_deviations(ctx, fi, where) -> bool:
     return found
 
 
+def _has_op(v, op, depth=0):
+    """does the value contain a Term with this operator (bounded walk over Term arguments / tuples / lists)"""
+    if depth > 12:
+        return False
+    if isinstance(v, Term):
+        if v.op == op or v.op.endswith("." + op):
+            return True
+        return any(_has_op(a_, op, depth + 1) for a_ in list(v.args) + list(v.kw.values()))
+    if isinstance(v, (tuple, list)):
+        return any(_has_op(a_, op, depth + 1) for a_ in v)
+    for attr in ("items", "elts", "elems"):
+        xs = getattr(v, attr, None)
+        if isinstance(xs, (tuple, list)):
+            return any(_has_op(getattr(a_, "value", a_), op, depth + 1) for a_ in xs)
+    return False
+
 def run(ctx, repo, tier):
     for fmt in ("csr", "coo"):
         run_context(ctx, repo, tier, fmt)
@@ -412,6 +428,12 @@ def run_context(ctx, repo, tier, fmt):
                     "entries reduceat returns the first entry of the NEXT row (or raises IndexError for the last row) instead of 0, so a "
                     "cell without neighbours gets a non-zero diagonal and its row does not sum to zero", where,
                     "np.add.reduceat(matrix.data, matrix.indptr[:-1])", witness=vstr(v)[:200])
+    elif isinstance(v, Term) and v.op == "sub" and len(v.args) == 2 and all(_has_op(a_, "cumsum") for a_ in v.args):
+        ctx.violate("KERNEL", "C01.O5.vals", "row sums are formed as differences of ONE running sum over all stored rates: equal to the row sums "
+                    "only in exact arithmetic; in floating point each difference carries the rounding error of the whole prefix, so when earlier "
+                    "rows hold much larger rates (energy walls) later diagonals are 0.0 or garbage and rows do not sum to zero", where,
+                    "running[indptr[1:]] - running[indptr[:-1]]", witness="absolute error of row i ~ eps * sum of all rates stored before row i; "
+                    "rates span exp(+-E/2RT): prefix 1e50, row sum 1e3 -> diagonal 0.0")
     else:
         r = contains_top(vals)
         ctx.inconclusive("KERNEL", "C01.O5.vals", "diagonal values are not recognised as (minus) the row sums of the matrix", where,
